@@ -330,6 +330,9 @@ def positions_of(w, u):
 
 def gen_op(rng, w):
     sh = w.shadow
+    _pend = w.__dict__.setdefault("pending", [])
+    if _pend:
+        return _pend.pop(0)
     users = list(range(1, NUSERS + 1))
     c = rng.choice(users)
     roll = rng.random()
@@ -365,11 +368,24 @@ def gen_op(rng, w):
         kind = rng.random()
         who = rng.choice([OWNER] * 6 + users)
         if kind < 0.2:
-            return ["SetRate", who, rng.choice([0, 1, 1000, 10 ** 6, log_amount(rng)])]
+            _val = rng.choice([0, 1, 1000, 10 ** 6, log_amount(rng)])
+            if who == OWNER and rng.random() < 0.5:
+                # blocks pass first: they must be settled with the OLD parameters (changes are never retroactive)
+                _pend.append(["SetRate", OWNER, _val])
+                return ["Time", rng.choice([1, 3, 10, 100]), 0]
+            return ["SetRate", who, _val]
         if kind < 0.3:
+            if who == OWNER and rng.random() < 0.5:
+                _pend.append(["End", OWNER])
+                return ["Time", rng.choice([1, 3, 10, 100]), 0]
             return ["End", who]
         if kind < 0.5:
-            return ["SetPct", who, rng.choice([0, 1, 2500, 2500, 9999, 10000, 10001])]
+            _val = rng.choice([0, 1, 2500, 2500, 9999, 10000, 10001])
+            if who == OWNER and rng.random() < 0.5:
+                # blocks pass first: they must be settled with the OLD parameters (changes are never retroactive)
+                _pend.append(["SetPct", OWNER, _val])
+                return ["Time", rng.choice([1, 3, 10, 100]), 0]
+            return ["SetPct", who, _val]
         if kind < 0.7:
             return ["SetFactors", who, [rng.choice([1, 2, 10]), rng.choice([0, 1, 3]), rng.choice([1, 2]), rng.choice([1, 10]), rng.choice([1, 100])]]
         if kind < 0.78:
